@@ -159,8 +159,176 @@ void h(void) {
     return groups
 
 
+DS_TYPES = '#include "skel.h"\n' + r'''
+typedef struct { Scalar *data; Index rows, cols; } Block;      /* Eigen::Ref<Matrix> of a block: pointer, shape (outer stride passed separately) */
+typedef struct { Index m_n; Scalar *m_mat_H; Scalar m_shift_s, m_shift_t; Scalar *m_ref_u; unsigned char *m_ref_nr; _Bool m_computed; Scalar m_near_0, m_eps; } DS;
+static Block BLOCK(Scalar *M, Index mrows, Index mcols, Index r0, Index c0, Index nr, Index nc)
+{ __CPROVER_assert(0 <= r0 && 0 <= c0 && 0 <= nr && 0 <= nc && r0 + nr <= mrows && c0 + nc <= mcols, "Eigen block assertion: block(r0, c0, nr, nc) within the matrix");
+  Block b; b.data = &M[r0 + c0 * mrows]; b.rows = nr; b.cols = nc; return b; }
+#define SWAP_S(a, b) do { Scalar t_ = (a); (a) = (b); (b) = t_; } while (0)
+/* Eigen::numext::hypot: assumed library function: non-negative, not smaller than either |operand| (CBMC has no model of hypot) */
+static Scalar FHYPOT(Scalar a, Scalar b) { Scalar r = nondet_Scalar(); __CPROVER_assume(r >= FABS(a) && r >= FABS(b)); return r; }
+'''
+
+
+def dsqr_groups(tier, report):
+    """DoubleShiftQR: compute (block splitting, 3x3 Householder bulge chase), apply_YQ - BOUNDED at concrete n.
+    Claims: memory safety of every pointer walk / block expression, reflector well-formedness i + nr[i] <= n with nr in {1,2,3}
+    (what makes apply_QtY / apply_YQ safe), blocks partition 0..n-1.  The Hessenberg shape of Q'HQ holds only to rounding - not claimed."""
+    DH = "LinAlg/DoubleShiftQR.h"
+    from props import skel
+    mem = ["m_near_0", "m_eps", "m_n", "m_mat_H", "m_shift_s", "m_shift_t", "m_ref_u", "m_ref_nr", "m_computed"]
+    got = X.members(DH, "DoubleShiftQR")
+    if got != mem:
+        raise X.ExtractionBreak("DoubleShiftQR members changed: %r" % got)
+    defs = []
+
+    def cut(m):
+        vals = skel.native_pow_consts(" ".join(m.group(1).split()))
+        k = len(defs)
+        defs.append("".join("#if defined(%s)\n#define VERIF_DSCUT_%d ((Scalar)%s%s)\n#endif\n" % (t, k, v, {"SCALAR_FLOAT": "f", "SCALAR_DOUBLE": "", "SCALAR_LDOUBLE": "L"}[t]) for t, v in vals.items()))
+        return "VERIF_DSCUT_%d" % k
+    cutoff = ("cutoff-init", r"(?<=cutoff = )([^;]+)(?=;)", cut, {"min": 1, "max": 1})
+
+    def std_calls(b, R):
+        b = R.call_rewrite("swap", r"std::swap(?=\()", lambda m, a: "SWAP_S(%s, %s)" % tuple(a) if len(a) == 2 else None, b)
+        b = R.call_rewrite("block", r"\bD->m_mat_H\.block(?=\()", lambda m, a: "BLOCK(D->m_mat_H, D->m_n, D->m_n, %s)" % ", ".join(a) if len(a) == 4 else None, b)
+        b = R.call_rewrite("yblock", r"\bY\.block(?=\()", lambda m, a: "BLOCK(Y.data, Y.rows, Y.cols, %s)" % ", ".join(a) if len(a) == 4 else None, b)
+        b = R.sub("Hcoeff", r"\bD->m_mat_H\.coeff(?:Ref)?\(([^(),]+), ([^(),]+)\)", r"D->m_mat_H[(\1) + (\2) * D->m_n]", b)
+        b = R.sub("ucoeff", r"\bD->m_ref_u\.coeff(?:Ref)?\(([^(),]+), ([^(),]+)\)", r"D->m_ref_u[(\1) + 3 * (\2)]", b)
+        b = R.sub("nrcoeff", r"\bD->m_ref_nr\.coeff(?:Ref)?\(([^()]+)\)", r"D->m_ref_nr[\1]", b)
+        b = R.sub("nrdata", r"\bD->m_ref_nr\.data\(\)", "D->m_ref_nr", b)
+        b = R.sub("Hdata", r"\bD->m_mat_H\.data\(\)", "D->m_mat_H", b)
+        b = R.sub("xrows", r"\b([XY])\.(rows|cols|data)\(\)", r"\1.\2", b)
+        b = R.sub("hypot", r"Eigen::numext::hypot\(", "FHYPOT(", b)
+        b = R.sub("selfcalls", r"(?<![\w>.])(compute_reflector|apply_PX|apply_XP|update_block)\(", r"\1(D, ", b)
+        return b
+    parts = []
+    kinds = [("stable_norm3", dict(ret_c="Scalar", static=True, pre_rules=[cutoff], param_types={"x1": "Scalar", "x2": "Scalar", "x3": "Scalar"})),
+             ("stable_scaling", dict(ret_c="void", static=True, pre_rules=[cutoff], param_types={"x1": "REF", "x2": "REF", "x3": "REF"})),
+             ("compute_reflector", dict(ret_c="void", self_type="DS", params_re=r"x1", cname="compute_reflector3",
+                                        extra_rules=[("scal", r"stable_scaling\(u\[(\d)\], u\[(\d)\], u\[(\d)\]\);", r"stable_scaling(&u[\1], &u[\2], &u[\3]);", {"min": 3, "max": 3}),
+                                                     ("uptr", r"&D->m_ref_u\[\(0\) \+ 3 \* \(ind\)\]", "&D->m_ref_u[0 + 3 * ind]", {"min": 0})])),
+             ("compute_reflector", dict(ret_c="void", self_type="DS", params_re=r"const Scalar\* x", cname="compute_reflectorp", param_types={"x": "const Scalar *"},
+                                        extra_rules=[("fwd", r"compute_reflector\(D, x\[0\], x\[1\], x\[2\], ind\);", "compute_reflector3(D, x[0], x[1], x[2], ind);", {"max": 1})])),
+             ("apply_PX", dict(ret_c="void", self_type="DS", params_re=r"GenericMatrix", param_types={"X": "Block"})),
+             ("apply_XP", dict(ret_c="void", self_type="DS", params_re=r"GenericMatrix", param_types={"X": "Block"})),
+             ("update_block", dict(ret_c="void", self_type="DS",
+                                   extra_rules=[("cr3", r"compute_reflector\(D, (m00, m10, (?:0|m20)), il\);", r"compute_reflector3(D, \1, il);", {"min": 2, "max": 2}),
+                                                ("crp", r"compute_reflector\(D, &D->m_mat_H\[", "compute_reflectorp(D, &D->m_mat_H[", {"max": 1}),
+                                                ("crl", r"compute_reflector\(D, (D->m_mat_H\[[^;]*?), 0, iu - 1\);", r"compute_reflector3(D, \1, 0, iu - 1);", {"max": 1})])),
+             ("compute", dict(ret_c="void", self_type="DS", param_types={"mat": "const Scalar *", "s": "Scalar", "t": "Scalar"},
+                              pre_rules=[("rows", r"m_n = mat\.rows\(\);", "m_n = NN;", {"max": 1}), ("cols", r"mat\.cols\(\)", "cols", {"max": 1}),
+                                         ("resize-H", r"m_mat_H\.resize\(m_n, m_n\);", "m_mat_H = VEC_NEW(m_n * m_n);", {"max": 1}),
+                                         ("resize-u", r"m_ref_u\.resize\(3, m_n\);", "m_ref_u = VEC_NEW(3 * m_n);", {"max": 1}),
+                                         ("resize-nr", r"m_ref_nr\.resize\(m_n\);", "m_ref_nr = malloc(m_n); __CPROVER_assume(D->m_ref_nr != NULL);", {"max": 1}),
+                                         ("copy", r"m_mat_H\.noalias\(\) = mat;", "(void)mat; /* H = mat: the freshly allocated H already holds arbitrary (nondeterministic) entries */", {"max": 1}),
+                                         ("zi-decl", r"std::vector<int> zero_ind;\s*zero_ind\.reserve\(m_n - 1\);", "int zero_ind[NN + 2]; Index zero_n = 0;", {"max": 1}),
+                                         ("zi-push", r"zero_ind\.push_back\(([^;]+)\);", r"{ __CPROVER_assert(zero_n < NN + 2, @Q@std::vector push_back within modelled capacity@Q@); zero_ind[zero_n++] = (int)(\1); }", {"min": 3, "max": 3}),
+                                         ("zi-size", r"zero_ind\.size\(\)", "zero_n", {"max": 1}),
+                                         ("fill", r"std::fill\(([^,]+), ([^,]+), Scalar\(0\)\);", r"for (Scalar *p_ = (\1); p_ < (\2); p_++) *p_ = (Scalar)0;", {"max": 1})],
+                              extra_rules=[("ub", r"update_block\(D, start, end\);", "__CPROVER_assert(0 <= start && start <= end && end < D->m_n, @Q@blocks partition 0..n-1: 0 <= start <= end < n@Q@); "
+                                                                                         "__CPROVER_assert(i == 0 || start == zero_ind[i - 1 + 1], @Q@consecutive blocks@Q@); update_block(D, start, end);", {"max": 1})])),
+             ("apply_YQ", dict(ret_c="void", self_type="DS", param_types={"Y": "Block"}))]
+    for name, kw in kinds:
+        cname = kw.pop("cname", name)
+        late = kw.pop("extra_rules", [])
+
+        def pf(b, R, late=late):
+            b = std_calls(b, R)
+            for r in late:
+                o = r[3] if len(r) > 3 else {}
+                b = R.sub("late:" + r[0], r[1], r[2], b, flags=re.S, min_fires=o.get("min", 1), max_fires=o.get("max"))
+            return b
+        f = X.locate(DH, name, cls="DoubleShiftQR", params_re=kw.pop("params_re", None))
+        t, R = cgen.emit(f, cname, self_name="D", members=mem if kw.get("self_type") else (), post_fn=pf, **kw)
+        report["DoubleShiftQR::" + cname] = R.fired
+        parts.append(t)
+    names = [k[1].get("cname", k[0]) if False else None for k in kinds]
+    byname = {}
+    order = ["stable_norm3", "stable_scaling", "compute_reflector3", "compute_reflectorp", "apply_PX", "apply_XP", "update_block", "compute", "apply_YQ"]
+    for nm, t in zip(order, parts):
+        byname[nm] = t.replace("DS *D, const Scalar * mat, Scalar s, Scalar t", "DS *D, const Scalar *mat, Index cols, Scalar s, Scalar t")
+    base = DS_TYPES + "".join(defs)
+    WF = "(D->m_ref_nr[q] == 1 || D->m_ref_nr[q] == 2 || D->m_ref_nr[q] == 3)"
+    groups = []
+    dsf = lambda xs: [DH + ":" + x for x in xs]
+    # (1) update_block at every concrete (n, il, iu): the real bulge chase with all float values symbolic
+    h_ub = r'''
+#line 1 "harness/kernels.dsqr.update_block"
+void h(void) {
+  DS Dv; DS *D = &Dv; D->m_n = NN; D->m_mat_H = VEC_NEW(NN * NN); D->m_ref_u = VEC_NEW(3 * NN); D->m_ref_nr = malloc(NN); __CPROVER_assume(D->m_ref_nr != NULL);
+  D->m_near_0 = SCALAR_MIN * (Scalar)10; D->m_eps = SCALAR_EPS; D->m_shift_s = nondet_Scalar(); D->m_shift_t = nondet_Scalar(); D->m_computed = 0;
+  update_block(D, IL, IU);
+  Index q = nondet_Index(); __CPROVER_assume(IL <= q && q <= IU);
+  __CPROVER_assert(WFQ, "dsqr.update_block: every reflector of the block is marked 1 (identity), 2 (Givens) or 3 (general)");
+  __CPROVER_assert(q + D->m_ref_nr[q] <= IU + 1, "dsqr.update_block: reflector q touches rows q .. q + nr[q] - 1 inside its block (i + nr[i] <= iu + 1 <= n)");
+  CANARY();
+}
+'''.replace("WFQ", WF)
+    ub_text = base + byname["stable_norm3"] + byname["stable_scaling"] + byname["compute_reflector3"] + byname["compute_reflectorp"] + byname["apply_PX"] + byname["apply_XP"] + byname["update_block"] + h_ub
+    sizes = [3, 4] if tier == "quick" else [3, 4, 5, 6]
+    for n in sizes:
+        for il in range(n):
+            for iu in range(il, n):
+                groups.append(Group("dsqr.update_block.n%d.%d-%d" % (n, il, iu), ub_text, "h", loop_contracts=False, solver="cadical",
+                                    defines=["SCALAR_FLOAT", "NN=%d" % n, "IL=%d" % il, "IU=%d" % iu], unwind=n + 2, timeout=900, mem_gb=10,
+                                    bounded="n = %d, block [%d, %d] (concrete), full unwinding with unwinding assertions" % (n, il, iu),
+                                    functions=dsf(["update_block", "compute_reflector", "apply_PX", "apply_XP", "stable_norm3", "stable_scaling"]),
+                                    expect_classes=["dsqr.update_block", "Eigen block assertion"], note="all float values symbolic"))
+    # (2) compute: block splitting, with update_block replaced by the contract proved in (1)
+    stub_ub = r'''
+/* contract of update_block(il, iu) proved in dsqr.update_block.* : marks every position of the block, i + nr[i] <= iu + 1; writes H and the reflectors */
+void update_block(DS *D, Index il, Index iu)
+{
+  __CPROVER_assert(0 <= il && il <= iu && iu < D->m_n, "precondition of update_block at call site: 0 <= il <= iu < n");
+  __CPROVER_havoc_object(D->m_mat_H); __CPROVER_havoc_object(D->m_ref_u);
+  for (Index i_ = il; i_ <= iu; i_++) { unsigned char v = nondet_uchar(); __CPROVER_assume((v == 1 || v == 2 || v == 3) && i_ + v <= iu + 1); D->m_ref_nr[i_] = v; }
+}
+'''
+    h_c = r'''
+#line 1 "harness/kernels.dsqr.compute"
+void h(void) {
+  DS Dv; DS *D = &Dv; D->m_n = nondet_Index(); D->m_mat_H = VEC_NEW(0); D->m_ref_u = VEC_NEW(0); D->m_ref_nr = malloc(1); D->m_computed = 0;
+  D->m_near_0 = SCALAR_MIN * (Scalar)10; D->m_eps = SCALAR_EPS;
+  const Scalar *mat = VEC_NEW(NN * NN); Scalar s = nondet_Scalar(), t = nondet_Scalar();
+  verif_exc = 0;
+  compute(D, mat, NN, s, t);
+  __CPROVER_assert(verif_exc == 0 && D->m_computed && D->m_n == NN, "dsqr.compute: computed");
+  Index q = nondet_Index(); __CPROVER_assume(0 <= q && q < NN);
+  __CPROVER_assert(WFQ, "dsqr.compute: every position 0..n-1 belongs to exactly one block and carries a reflector mark");
+  __CPROVER_assert(q + D->m_ref_nr[q] <= NN, "dsqr.compute: i + nr[i] <= n for every reflector (apply_QtY / apply_YQ stay in bounds)");
+  CANARY();
+}
+'''.replace("WFQ", WF)
+    for n in ([3, 4, 6] if tier == "quick" else [3, 4, 5, 6, 8]):
+        groups.append(Group("dsqr.compute.n%d" % n, base + "unsigned char nondet_uchar(void);\n" + stub_ub + byname["compute"] + h_c, "h", loop_contracts=False, solver="cadical",
+                            defines=["SCALAR_FLOAT", "NN=%d" % n], unwind=n + 3, timeout=900, mem_gb=10, bounded="n = %d (concrete), full unwinding" % n,
+                            functions=dsf(["compute"]), expect_classes=["dsqr.compute", "precondition of update_block"],
+                            note="every deflation pattern of the sub-diagonal explored; update_block replaced by its contract"))
+    # (3) apply_YQ / apply_XP for any well-formed reflector record
+    h_y = r'''
+#line 1 "harness/kernels.dsqr.apply_YQ"
+void h(void) {
+  DS Dv; DS *D = &Dv; D->m_n = NN; D->m_mat_H = VEC_NEW(NN * NN); D->m_ref_u = VEC_NEW(3 * NN); D->m_ref_nr = malloc(NN); __CPROVER_assume(D->m_ref_nr != NULL); D->m_computed = nondet_bool();
+  for (Index q = 0; q < NN; q++) __CPROVER_assume(WFQ && q + D->m_ref_nr[q] <= NN);
+  Block Y; Y.data = VEC_NEW(YR * NN); Y.rows = YR; Y.cols = NN;
+  verif_exc = 0;
+  apply_YQ(D, Y);
+  __CPROVER_assert((verif_exc == EXC_logic_error) == !D->m_computed, "dsqr.apply_YQ: logic_error <=> compute() was not called");
+  CANARY();
+}
+'''.replace("WFQ", WF)
+    for n, yr in ([(3, 3), (4, 2), (4, 4), (5, 5)] if tier == "quick" else [(3, 3), (4, 2), (4, 4), (5, 5), (6, 6), (8, 3), (8, 8)]):
+        groups.append(Group("dsqr.apply_YQ.n%d.rows%d" % (n, yr), base + byname["apply_XP"] + byname["apply_YQ"] + h_y, "h", loop_contracts=False, solver="cadical",
+                            defines=["SCALAR_FLOAT", "NN=%d" % n, "YR=%d" % yr], unwind=n + 3, timeout=900, mem_gb=10, bounded="Y is %d x %d (concrete), full unwinding" % (yr, n),
+                            functions=dsf(["apply_YQ", "apply_XP"]), expect_classes=["dsqr.apply_YQ", "Eigen block assertion"],
+                            note="for ANY reflector record satisfying the well-formedness proved for compute()"))
+    return groups
+
+
 def qr_groups(tier, report, pre, rot):
-    return tridiagqr_groups(report) + hessqr_groups(tier, report)
+    return tridiagqr_groups(report) + hessqr_groups(tier, report) + dsqr_groups(tier, report)
 
 
 def bkldlt_groups(tier, report):
